@@ -326,6 +326,7 @@ type roundRec struct {
 	tipBcast bool
 	queried  bool
 	blockErr bool // GetBlock failed in this round
+	maxStop  int  // highest stop height among the dispatcher's requests
 	w        *world
 }
 
@@ -348,7 +349,11 @@ type loopRun struct {
 	state  string
 	// rounds in which GetBlock has failed so far (spec BlockFail / BlockFailTimes)
 	blockFails int
-	fail   *c.ImplFailure
+	// length of every peer's checkpoint list as capped by the handler, from
+	// the last getcfcheckpt round; the filter tip before the round
+	cpLens  map[int64]int
+	ftipNow int
+	fail    *c.ImplFailure
 }
 
 func (L *loopRun) answering() []*peerSpec {
@@ -376,6 +381,7 @@ func (L *loopRun) respond(q wire.Message) []neutrino.VerifC03PeerMsgs {
 	case *wire.MsgGetCFCheckpt:
 		rr.asked = c.Some(c.Z(L.in.tok(m.StopHash)))
 		stopH, ok := L.ch.byHash[m.StopHash]
+		L.cpLens = map[int64]int{}
 		if !ok {
 			return nil
 		}
@@ -396,6 +402,11 @@ func (L *loopRun) respond(q wire.Message) []neutrino.VerifC03PeerMsgs {
 				msg.AddCFHeader(x)
 			}
 			rr.cpans = append(rr.cpans, fmt.Sprintf("(%d, true, %d, %s)", p.ID, L.in.tok(m.StopHash), hashesTerm(L.in, l)))
+			n := len(l)
+			if lim := (len(L.ch.hashes) - 1) / 1000; n > lim {
+				n = lim
+			}
+			L.cpLens[p.ID] = n
 			out = append(out, neutrino.VerifC03PeerMsgs{Addr: p.addr(), Msgs: []wire.Message{msg}})
 		}
 		return out
@@ -450,6 +461,13 @@ func (L *loopRun) Query(reqs []*query.Request, _ ...query.QueryOption) chan erro
 	errChan := make(chan error, 1)
 	L.mu.Lock()
 	L.rr.queried = true
+	for _, rq := range reqs {
+		if gq, ok := rq.Req.(*wire.MsgGetCFHeaders); ok {
+			if h, ok := L.ch.byHash[gq.StopHash]; ok && h > L.rr.maxStop {
+				L.rr.maxStop = h
+			}
+		}
+	}
 	mode := "all"
 	if L.step != nil && L.step.Fetch != "" {
 		mode = L.step.Fetch
@@ -608,7 +626,8 @@ func sortedSet(l []int64) []int64 {
 
 func runL(sp *spec) (res result) {
 	res.sp = *sp
-	L := &loopRun{sp: sp, conn: map[int64]bool{}, banned: map[int64]bool{}, byID: map[int64]*peerSpec{}}
+	L := &loopRun{sp: sp, conn: map[int64]bool{}, banned: map[int64]bool{}, byID: map[int64]*peerSpec{},
+		cpLens: map[int64]int{}, ftipNow: sp.FTip}
 	L.ch = fx.big.upTo(sp.Tip)
 	L.in = newInterner(fx.bigIn, 10000000)
 	e, done := openCopy(fx.bigTemplate(sp.Tip), sp.ID)
@@ -780,7 +799,34 @@ func runL(sp *spec) (res result) {
 				env = rr.w.envTerm()
 				rfilt = rr.w.filtTerm()
 			}
+			// which of the agreeing lists did the handler take ("for _, l :=
+			// range checkpoints { return l }")? read off the requests of the
+			// fetch: they end at len(list)*1000
 			hint := int64(0)
+			if cls == 3 {
+				nowBanned := map[int64]bool{}
+				for _, b := range rb {
+					nowBanned[b] = true
+				}
+				var ids []int64
+				for id := range L.cpLens {
+					ids = append(ids, id)
+				}
+				sort.Slice(ids, func(i, j int) bool { return ids[i] < ids[j] })
+				for _, id := range ids {
+					n := L.cpLens[id]
+					if nowBanned[id] || n == 0 {
+						continue
+					}
+					if (rr.queried && n == rr.maxStop/1000) || (!rr.queried && n <= L.ftipNow/1000) {
+						hint = id
+						break
+					}
+				}
+			}
+			if ferr == nil {
+				L.ftipNow = int(fh)
+			}
 			evs = append(evs, fmt.Sprintf("RRound %s\n   %s\n   %s %s %d\n   %s\n   (%d, %s, %s, %s)",
 				c.List(rr.cpans), c.List(rr.w.raws), env, rfilt, hint, c.List(rr.arrs),
 				cls, rr.asked, zlist(rb), fts))
@@ -854,7 +900,19 @@ func loopPeers(r *rand.Rand, tip int) ([]*peerSpec, []int64) {
 	peers = append(peers, &peerSpec{ID: 1, HdrMode: "ok", CpMode: "own"})
 	for i := 1; i < n; i++ {
 		p := &peerSpec{ID: int64(i + 1), HdrMode: "ok", CpMode: "own"}
-		switch r.Intn(6) {
+		switch r.Intn(7) {
+		case 6: // lazy: a correct but truncated checkpoint list (0, 1 or n-1 entries)
+			switch r.Intn(3) {
+			case 0:
+				p.CpMode = "empty"
+			case 1:
+				p.CpMode, p.CpArg = "short", 1
+			default:
+				p.CpMode, p.CpArg = "short", tip/1000-1
+				if p.CpArg < 1 {
+					p.CpMode = "empty"
+				}
+			}
 		case 0, 1: // honest
 			honest = append(honest, p.ID)
 		case 2: // lies in a filter hash, refutable by the filter it serves
